@@ -45,10 +45,11 @@ def _also_rejected_otherwise(cfg, exc):
     for m in I.all_mws(c2):
         m['reorderable'] = True
     try:
-        I.predict(c2)
+        plan2 = I.predict(c2)
     except I.Reject as r2:
         return isinstance(exc, I.EXC_FOR.get(r2.kind, ()) + ((RuntimeError,) if getattr(r2, 'cyclic', False) else ()))
-    return False
+    # (the other "defect" may be a cyclic provide graph, which the quantifier lets construction refuse with RuntimeError)
+    return bool(plan2.cyclic) and isinstance(exc, RuntimeError)
 
 
 def compare(ctx, w, r, ev, outcome, rc, what):
